@@ -111,6 +111,9 @@ def run(ctx):
     ctx.rule("R9", "local counter vectors never keep a cached local bound to a removed child (shared with C12.L10): remove_label_values drops the local entry before and "
                    "independently of the shared delete; with_label_values caches by the shared hash; new/clone start empty")
     ctx.run_rule("R9", lambda c: C06._as(c, "R9", lambda s_: C12.rule_vec_forms(s_, f, "L10"), keep=lambda k: "GenericLocalCounterVec::" in k))
+    # "never go backwards": the public API of a counter offers no way to decrease it (rustc as the oracle)
+    from pvrules import witness
+    ctx.run_rule("R10", lambda c: witness.rule_witnesses(c, "R10", "c01_", 3))
     if ctx.tier == "thorough":
         for cfgname in ("plain", "nightlyproc", "push"):
             g = ctx.facts(cfgname)
